@@ -275,10 +275,16 @@ Inductive op :=
 | OTamper (idx : N) (rel : str) (now : option bytes)                     (* a stored copy of the idx-th checkpoint was changed / removed *)
 | OEdit.                                                                 (* the harness / apply_patch changed the workspace *)
 
+(* what the harness saw change in the workspace listing (without .rip) across one operation: entries that appeared or
+   changed (Some node) and entries that disappeared (None); [] = the listing is as before *)
+Definition delta := list (path * option node).
+Definition apply_delta (f : fs) (d : delta) : fs :=
+  fold_left (fun g pn => match snd pn with Some n => set g (fst pn) n | None => unset g (fst pn) end) d f.
+
 Record case := {
   c_root : str;
   c_init : fs;
-  c_ops : list (op * option fs)     (* operation, workspace listing observed after it (without .rip); None = as before *)
+  c_ops : list (op * delta)         (* operation, change of the observed workspace listing across it *)
 }.
 
 Definition entry_flags (ck : list entry) : list (str * bool) :=
@@ -300,11 +306,11 @@ Fixpoint tamper_nth (cks : list (list entry * store)) (i : nat) (rel : str) (v :
   | c :: r, S j => c :: tamper_nth r j rel v
   end.
 
-Fixpoint run_ops (root : str) (f : fs) (cks : list (list entry * store)) (ops : list (op * option fs)) : bool :=
+Fixpoint run_ops (root : str) (f : fs) (cks : list (list entry * store)) (ops : list (op * delta)) : bool :=
   match ops with
   | [] => true
   | (o, obs) :: r =>
-    let after := match obs with Some a => a | None => f end in
+    let after := apply_delta f obs in
     match o with
     | OCreate raws code recorded =>
       match create f root raws with
@@ -334,11 +340,11 @@ Definition check_case (c : case) : bool := sane_b (c_init c) && run_ops (c_root 
 (* diagnosis shown on a disagreement: [number of the first operation (from 1) the model does not reproduce
    (0 = the initial workspace is not sane); what failed there: 1 result code, 2 recorded entries, 3 listing,
    4 unknown checkpoint index, 5 the temporary name is taken, 6 observed workspace not sane] *)
-Fixpoint diag_ops (root : str) (f : fs) (cks : list (list entry * store)) (ops : list (op * option fs)) (i : N) : list N :=
+Fixpoint diag_ops (root : str) (f : fs) (cks : list (list entry * store)) (ops : list (op * delta)) (i : N) : list N :=
   match ops with
   | [] => []
   | (o, obs) :: r =>
-    let after := match obs with Some a => a | None => f end in
+    let after := apply_delta f obs in
     match o with
     | OCreate raws code recorded =>
       match create f root raws with
